@@ -43,6 +43,8 @@ exponent = st.one_of(
     st.tuples(st.integers(-5, 5).filter(lambda n: n != 0), st.sampled_from([2, 3, 4])),
     # larger denominators (also reached by accumulation: m1:7*m1:11*m1:13 = m311:1001): exponents stay exact rationals
     st.tuples(st.integers(-5, 5).filter(lambda n: n != 0), st.sampled_from([7, 11, 13, 32, 33, 1001, 1024])),
+    # a sign on the denominator is accepted and normalised: km-1:-2 is km1:2, km1:-2 is km-1:2
+    st.tuples(st.integers(-5, 5).filter(lambda n: n != 0), st.sampled_from([-1, -2, -2, -3, -4])),
 )
 
 
